@@ -72,7 +72,7 @@ func (c *vclock) Now() time.Time {
 	defer c.mu.Unlock()
 	return c.base.Add(time.Duration(c.now))
 }
-func (c *vclock) Since(t time.Time) time.Duration  { return c.Now().Sub(t) }
+func (c *vclock) Since(t time.Time) time.Duration      { return c.Now().Sub(t) }
 func (c *vclock) After(time.Duration) <-chan time.Time { panic("vclock: After not used") }
 func (c *vclock) Sleep(time.Duration)                  { panic("vclock: Sleep not used") }
 func (c *vclock) Tick(time.Duration) <-chan time.Time  { panic("vclock: Tick not used") }
